@@ -104,7 +104,9 @@ impl JavaState {
             online: gen::u32_(t),
             sample,
             description,
-            favicon: opt(t).then(|| format!("data:image/png;base64,{}", gen::word(t, 64))),
+            // real favicons are a base64 PNG of several kilobytes: now and then one that takes the status
+            // JSON past 32767 bytes
+            favicon: opt(t).then(|| if t.draw(DATA, 30) == 0 { format!("data:image/png;base64,{}", "iVBORw0KGgo".repeat(3200 + t.draw(DATA, 600) as usize)) } else { format!("data:image/png;base64,{}", gen::word(t, 64)) }),
             previews_chat: opt(t).then(|| gen::bool_(t)),
             enforces_secure_chat: opt(t).then(|| gen::bool_(t)),
             extra_member: opt(t),
